@@ -40,6 +40,12 @@ def cases(prop, shard, nshards, seed, tier, want_models=False):
             for m in ((1, 4, 10) if tier == "quick" else range(1, 11)):
                 if mine():
                     yield {"family": "ensemble-in-one-structure", "file": fn, "first_model_number": base, "model": m - 1 + base, "ops": []}
+    # models of different composition in one Structure3D (two different molecules as models 1 and 2), asked about in
+    # both orders on the same object
+    for a, b in (("tests/1E7K_1_C.cif", "tests/1A1T_1_B.cif"), ("tests/1A1T_1_B.cif", "tests/184D.cif")):
+        for order in ((1, 2, 1), (2, 1, 2)):
+            if mine():
+                yield {"family": "different-molecules-as-models", "file": a, "other": b, "order": list(order), "ops": []}
     # crowded: the structure plus displaced copies (up to ~20 base centroids within 6 A, > 15 donor/acceptor atoms within 4 A)
     for fn in ("tests/1ATO.pdb", "tests/1A1T_1_B.cif", "tests/1DFU_1_M-N.cif"):
         for t in range(1 if tier == "quick" else 4):
@@ -228,6 +234,22 @@ def run_case(prop, case, rec, call):
         s = tertiary.Structure3D(res)
         mon3d._cur["ctx"] = {"file": case["file"], "all-models-in-one-structure": True, "models-numbered-from": base, "model": case["model"]}
         n = call(s, case["model"])
+        rec.mark_nontrivial(n > 0)
+        # the same object asked about ANOTHER of its models next (and then about the first one again)
+        other = base + (case["model"] - base + 3) % 10
+        for m in (other, case["model"]):
+            mon3d._cur["ctx"] = {"file": case["file"], "all-models-in-one-structure": True, "models-numbered-from": base, "model": m, "asked-before-on-this-object": case["model"]}
+            call(s, m)
+        return
+    if fam == "different-molecules-as-models":
+        from rnapolis import tertiary
+
+        res = list(gen3d.rebuild(gen3d.load(case["file"], None), model=1).residues) + list(gen3d.rebuild(gen3d.load(case["other"], None), model=2).residues)
+        s = tertiary.Structure3D(res)
+        n = 0
+        for m in case["order"]:
+            mon3d._cur["ctx"] = {"model-1": case["file"], "model-2": case["other"], "one-structure": True, "model": m, "order-on-this-object": case["order"]}
+            n += call(s, m)
         rec.mark_nontrivial(n > 0)
         return
     if fam == "through-reader-superposed-copies":
